@@ -2,26 +2,31 @@ import OjgVerif.Props.C10Num
 /-! # C10 on the tight writer model — whole trees
 
 `C10_tree_partial`: for every option combination of the tight sen.Writer (OmitNil, OmitEmpty, HTML-safe or not) and
-every array or object built from `null`, booleans, integers, strings, arrays and objects to any depth,
-`sen.Parser.Parse` of
+every array or object built from `null`, booleans, int64 integers, floats (given by their strconv text), strings, arrays
+and objects to any depth, `sen.Parser.Parse` of
 the text `Sen.tightVal` produces (the model of `sen.String`/`sen.Bytes`/`sen.Write` with `Indent == 0`, compared byte
 for byte with the Go writer by the correspondence run) is the one document `nvVal o v`. Excluded by `admVal`: strings
 in value position that are one of the reserved words, strings and member names written bare with a leading sign (the
-two known findings C10-reserved-word, C10-leading-sign), integers of absolute value 9223372036854775800 and more
-(the parser's integer fast loop answers json.Number from there on: known finding C03sen-int19), floats and
-json.Number (not covered). A scalar as the whole document is not covered (the end-of-input path).
+two known findings C10-reserved-word, C10-leading-sign), json.Number leaves. Integers: all int64 — from
+9223372036854775800 on the parser's integer fast loop answers json.Number (known finding C03sen-int19), with the same
+digits: that is what `nvVal` says there (`nvInt`, `value_int_all`). Floats: any literal of the RFC 8259 number grammar
+with a small integer part (`NumAdm`, Props/C10Num.lean) comes back as `Json.numConv` of its text (`value_flt`).
+The indented writer: Props/C10Indent.lean; a scalar as the whole document (the end-of-input path): Props/C10Top.lean; any
+white-space layout (pretty.SEN): Props/C10Layout.lean; sen.Write with WriteLimit: Props/C10Stream.lean.
 
 Technique: the byte machine is run over the writer's output in an arbitrary context. `St.pushed` is the state after a
 value has been completed in its context (array, member value, top of an empty parser); states are compared up to
-scratch fields (`CoreEq`); a bare token that is still pending when the value's text ends is completed by the
+scratch fields (`CoreEq`); a bare token or a number that is still pending when the value's text ends is completed by the
 delimiter that follows (`step_tokenEnd`: the token-end fast path adds the token and reads the delimiter again in the
-new mode), so a value is "done" (`DoneV`) when it is complete or pending, and `done_step` makes the two cases
+new mode; `step_numEnd` in the number modes `digit`, `zero`, `frac`, `exp`), so a value is "done" (`DoneV`) when it is
+complete or pending, and `done_step` makes the two cases
 indistinguishable at a delimiter. Three claims by induction on the size of the tree: values (`VClaim`), the
 elements of an array up to and including `]` (`EClaim`), the members of an object up to and including `}`
 (`MClaim`).
 
-`C10_tree_valid`: when moreover the strings and member names are valid UTF-8, member names are pairwise different
-and the writer passes over no member (`plainVal`), the document that comes back is the tree ITSELF. -/
+`C10_tree_valid`: when moreover the strings and member names are valid UTF-8, member names are pairwise different,
+the writer passes over no member, integers are below the limit and float texts canonical (`plainVal`), the document
+that comes back is the tree ITSELF. -/
 set_option linter.unusedSimpArgs false
 set_option linter.unusedVariables false
 set_option linter.unusedSectionVars false
@@ -478,6 +483,46 @@ theorem value_int (i : Int) (hi : -9223372036854775800 < i ∧ i < 9223372036854
         rw [ea]
         exact pushed_core _ st _ hin rfl rfl rfl rfl
 
+/-- every int64: below the limit the int64 itself (`value_int`), at the limit `nvInt` (a `json.Number` with the same
+digits from 9223372036854775800 on and for -9223372036854775808; `edge_run_pos`, `edge_run_neg`) -/
+theorem value_int_all (i : Int) (hi : -9223372036854775808 ≤ i ∧ i ≤ 9223372036854775807) (st : St) (f : Fast) (p : Pos)
+    (rest : Bytes) (hm : st.mode = .value) (hin : Inner st) (hf : FOK f) :
+    ∃ st' f' p', runBytes refTables {} st f p (fmtInt i ++ rest) = runBytes refTables {} st' f' p' rest ∧
+      DoneV st' f' (st.pushed (nvInt i)) := by
+  by_cases hmid : -9223372036854775800 < i ∧ i < 9223372036854775800
+  · have e : nvInt i = .int i := by
+      unfold nvInt; rw [if_pos ⟨by omega, hmid.2⟩]
+    rw [e]
+    exact value_int i hmid st f p rest hm hin hf
+  · have hedge : ∀ (st' : St) (f' : Fast) (x : JV), st'.mode = .digit → st'.num.asNum.toJV = x → st'.starts = st.starts →
+        st'.stack = st.stack → st'.docs = st.docs → st'.plus = st.plus → f'.nlSkipping = false →
+        DoneV st' f' (st.pushed x) := by
+      intro st' f' x m3 n3 a3 b3 c3 d3 e3
+      have hin' : Inner st' := by unfold Inner; rw [a3, b3]; exact hin
+      refine ⟨e3, Or.inr (Or.inr ⟨Or.inl m3, hin', ?_⟩)⟩
+      rw [n3]
+      exact pushed_core st' st x hin' a3 b3 c3 d3
+    by_cases hpos : 0 ≤ i
+    · obtain ⟨k, hk, hk1, hk2⟩ := edge_text i.natAbs (by omega)
+      have htxt : fmtInt i = P18 ++ [UInt8.ofNat (48 + k)] := by
+        have : ¬ i < 0 := by omega
+        simp [fmtInt, this, hk2]
+      obtain ⟨st', f', p', hrun, m3, n3, a3, b3, c3, d3, e3⟩ := edge_run_pos k hk st f p rest hm hf.1
+      refine ⟨st', f', p', by rw [htxt]; exact hrun, ?_⟩
+      have e : nvInt i = .big (P18 ++ [UInt8.ofNat (48 + k)]) := by
+        unfold nvInt; rw [if_neg (by omega), htxt]
+      rw [e]
+      exact hedge st' f' _ m3 n3 a3 b3 c3 d3 e3
+    · obtain ⟨k, hk, hk1, hk2⟩ := edge_text i.natAbs (by omega)
+      have hneg : i < 0 := by omega
+      have htxt : fmtInt i = 45 :: (P18 ++ [UInt8.ofNat (48 + k)]) := by
+        simp [fmtInt, hneg, hk2]
+      have hi' : i = -(9223372036854775800 + (k : Int)) := by omega
+      obtain ⟨st', f', p', hrun, m3, n3, a3, b3, c3, d3, e3⟩ := edge_run_neg k hk st f p rest hm hf.1
+      refine ⟨st', f', p', by rw [htxt]; exact hrun, ?_⟩
+      rw [hi']
+      exact hedge st' f' _ m3 n3 a3 b3 c3 d3 e3
+
 /-- a float (or any number literal of the grammar, `NumAdm`): after the literal the number is pending, and it is the
 number the JSON machine reads from the same literal (`Json.numConv`; numeric clause: `numDoc_exact`) -/
 theorem value_flt (t : Bytes) (hadm : NumAdm t) (st : St) (f : Fast) (p : Pos)
@@ -567,6 +612,7 @@ mutual
     | .str s => .str (sanitize s)
     | .arr xs => .arr (nvElems o xs)
     | .obj kvs => .obj (nvMembers o kvs [])
+    | .int i => nvInt i             -- the int64 itself below the limit of the integer fast loop, else json.Number
     | .flt t => Json.numConv t      -- what `gen.Number` makes of the float text (also what `oj.Parse` reads from it)
     | v => v
   def nvElems (o : WOpts) : List JV → List JV
@@ -581,15 +627,15 @@ end
 mutual
   /-- the trees of the theorem: `null`, booleans, integers, strings, arrays, objects; no string (in value position)
   is one of the reserved words, no string or member name is written bare with a leading sign (the two known
-  findings); the integers are those of absolute value below 9223372036854775800 (from there on the parser's
-  integer fast loop answers json.Number: known finding C03sen-int19); a float is given by its text, any literal of
+  findings); the integers are ALL int64 (from 9223372036854775800 on the parser's integer fast loop answers
+  json.Number — known finding C03sen-int19 — with the same digits: `nvInt`); a float is given by its text, any literal of
   the RFC 8259 number grammar (what strconv writes with format 'g' is one) whose integer part is below the same limit
   (`NumAdm`); json.Number leaves are not covered -/
   def admVal (o : WOpts) : JV → Prop
     | .null => True
     | .bool _ => True
     | .str s => ¬ C10.reservedWord s ∧ ¬ C10.leadingSign s o.html
-    | .int i => -9223372036854775800 < i ∧ i < 9223372036854775800
+    | .int i => -9223372036854775808 ≤ i ∧ i ≤ 9223372036854775807
     | .flt t => NumAdm t
     | .arr xs => admElems o xs
     | .obj kvs => admMembers o kvs
@@ -879,7 +925,7 @@ theorem V_scalar (v : JV) (hadm : admVal o v) (hs : needSep v = true) : VClaim o
   | arr xs => simp [needSep] at hs
   | obj kvs => simp [needSep] at hs
   | int i =>
-    obtain ⟨st', f', p', h, hd⟩ := value_int i hadm st f p rest hm hin hf
+    obtain ⟨st', f', p', h, hd⟩ := value_int_all i hadm st f p rest hm hin hf
     exact ⟨st', f', p', h, hd, fun h => by simp [needSep] at h⟩
   | flt t =>
     obtain ⟨st', f', p', h, hd⟩ := value_flt t hadm st f p rest hm hin hf
@@ -938,8 +984,8 @@ end claims
 /-! ## whole documents -/
 
 /-- **C10 on the tight writer model, whole trees**: for every option combination of the tight writer
-(OmitNil, OmitEmpty, HTML-safe or not) and every array or object `v` built from `null`, booleans, integers of absolute
-value below 9223372036854775800, strings, arrays and objects to any depth — no string in value position one of the reserved words, no string or member name written
+(OmitNil, OmitEmpty, HTML-safe or not) and every array or object `v` built from `null`, booleans, int64 integers,
+floats (`NumAdm`), strings, arrays and objects to any depth — no string in value position one of the reserved words, no string or member name written
 bare with a leading sign — `sen.Parser.Parse` of the text the tight writer produces is the one document
 `nvVal o v`: the same tree with strings and member names sanitised (unchanged when they are valid UTF-8), the
 members the writer passes over dropped, a repeated member name keeping its last value -/
@@ -982,6 +1028,7 @@ mutual
     | .str s => WellFormedUtf8 s
     | .arr xs => plainElems o xs
     | .obj kvs => plainMembers o kvs ∧ (kvs.map Prod.fst).Nodup
+    | .int i => -9223372036854775808 < i ∧ i < 9223372036854775800   -- the others come back as json.Number
     | .flt t => Json.numConv t = .flt t      -- `1.5` is; `3` comes back as the int64 3, `1e+06` as the float of `1e6`
     | _ => True
   def plainElems (o : WOpts) : List JV → Prop
@@ -1031,7 +1078,10 @@ theorem plain_all : ∀ (o : WOpts) (n : Nat),
         simp
       | null => rfl
       | bool b => rfl
-      | int i => rfl
+      | int i =>
+        obtain ⟨h1, h2⟩ : -9223372036854775808 < i ∧ i < 9223372036854775800 := hp
+        simp only [nvVal, nvInt]
+        rw [if_pos ⟨h1, h2⟩]
       | flt t => exact hp
       | big t => rfl
       | num t => rfl
